@@ -16,10 +16,12 @@ MANIFEST = {
             "saveBlock and the whole deleteBlock batch inverts the whole processBlock batch on every key outside the enumerated "
             "exceptions (finalized-height marker, temp-block records, event records pruned by saveBlock, diff records pruned on "
             "finalisation), for fresh block/transaction ids, and so does every well-bracketed history of any number of apply/remove "
-            "steps (each delete decoding the diff record found in the current database); a removed block is stored as temp block; reorg confluence with block "
+            "steps whose finalized heights and prune bounds are inputs and which does not prune the diff record of a block still to "
+            "be deleted (side conditions assumed, the Executer's guard and marker monotonicity are checked by the harness only; "
+            "each delete decodes the diff record found in the current database); a removed block is stored as temp block; reorg confluence with block "
             "execution as an adaptive program: apply B, delete B, execute+apply B' reads the same values and ends in the same "
-            "database outside B's exceptions as executing B' directly; the cached tip equals the database tip after any add/remove "
-            "sequence. Tie: random histories of apply/delete (blocks with/without txs, assets, events, staged "
+            "database outside B's exceptions as executing B' directly; the cached tip equals the database tip after each single "
+            "add / remove / PrepareCache step of the cache model (the refill entry is the chain head by definition of the model). Tie: random histories of apply/delete (blocks with/without txs, assets, events, staged "
             "consensus-store ops, finality advances, temp flags, reorgs, re-applies) on the real code; every step's full DB dump is "
             "compared in Coq with the model batch, every delete with the dump before the matching apply (oracle).",
     "note": "Two ties: harness/cmd/c05e drives the REAL consensus.Executer (processValidated/deleteBlock of valid blocks with txs, "
@@ -105,6 +107,24 @@ def decode_diff(hexval):
     return d
 
 
+def marker(dump):
+    for k, v in dump:
+        if k == "1b":
+            return int(v, 16)
+    return None
+
+
+def run_harness_retry(ck, binp, args, **kw):
+    """a watchdog exit (code 3) on a loaded machine is retried once with six times the time limits"""
+    n = len(ck.failures)
+    recs = ck.run_harness(binp, args, **kw)
+    if recs is None and len(ck.failures) > n and "exited 3" in ck.failures[-1]["what"]:
+        del ck.failures[n:]
+        ck.notes.append("harness %s hit its watchdog once; retried with longer limits" % os.path.basename(binp))
+        recs = ck.run_harness(binp, args, env_extra={"VERIF_WATCHDOG_X": "6"}, **kw)
+    return recs
+
+
 def tip_key(t):
     return None if t is None else (t.get("id"), t.get("height"))
 
@@ -140,6 +160,7 @@ def evaluate(ck, recs):
     apply_terms, delete_terms, restore_terms = [], [], []
     apply_ctx, delete_ctx, restore_ctx = [], [], []
     stats = ck.extra.setdefault("step_kinds", {})
+    floors = ck.extra.setdefault("floor_counts", {})
 
     def bump(k):
         stats[k] = stats.get(k, 0) + 1
@@ -155,64 +176,88 @@ def evaluate(ck, recs):
         keep = r["keep"]
         spans = []      # open applies: dict(pre, tip, ev, dfb, temps, dup, ix)
         blocks = []     # mirror of the harness' applied stack (without genesis)
-        damaged = False   # a block that reused a stored transaction id was undone: consequences of the known finding c05:dup-tx
+        # known finding c05:dup-tx, kept NARROW: [lost] = transaction ids whose record 06|id was removed by deleting a block that
+        # reused them while an earlier block still owns them.  Only two consequences are filed under the known key: the record
+        # itself (excepted from the restore oracle) and getBlock of an owner block failing (cached-body check of an owner tip, the
+        # cache refill from an owner parent, PrepareCache over an owner).  Everything else stays an ordinary failure.
+        lost = set()
+
+        def owner_missing(blk, dump):
+            """blk stores a transaction whose record is absent from dump (getBlock(blk) fails)"""
+            have = {k for k, _ in dump}
+            return any(("06" + t[0]) not in have for t in blk["txs"])
+
         if r.get("close_err"):
             fail("c05:close:%s" % r["close_err"], "DB.Close after the history reported %s" % r["close_err"], r, -1)
-        had_dup = any(s.get("dup_tx") for s in r["steps"])
-        if "prepare_cache_err" in r and not had_dup:
-            # restart view: a fresh Chain + PrepareCache over the final database must succeed and expose the DB tip
-            want = r.get("final_last_block_db")
-            if r["prepare_cache_err"] is not None:
-                fail("c05:restart:prepare-cache-failed", "PrepareCache on a fresh Chain over the final database failed (%s); "
-                     "genesis height %d, maxBlockCache %d" % (r["prepare_cache_err"], r["genesis_height"], r["maxcache"]), r, -1,
-                     observed=r["prepare_cache_err"])
-            elif want is not None and tip_key(r.get("prepare_cache_tip")) != tip_key(want):
-                fail("c05:restart:cached-tip-differs", "after PrepareCache the cached tip %s differs from the database tip %s" % (
-                    json.dumps(r.get("prepare_cache_tip")), json.dumps(want)), r, -1, observed=r.get("prepare_cache_tip"))
+        if r.get("scripted"):
+            floors["scripted blockchain-level history"] = floors.get("scripted blockchain-level history", 0) + 1
+        if r.get("drain"):
+            floors["drain histories"] = floors.get("drain histories", 0) + 1
+        floors["histories with a final flush comparison"] = floors.get("histories with a final flush comparison", 0) + (
+            1 if r.get("final_flush_diff") is not None else 0)
         for ix, st in enumerate(r["steps"]):
             ck.count()
             op = st["op"]
             ok = st.get("err") is None and not st.get("panic")
             bump("%s:%s" % (op, "ok" if ok else (st.get("panic") and "panic:" + st["panic"]) or st.get("err")))
-            if op == "delete" and spans and spans[-1]["dup"]:
-                damaged = True     # undoing a block that reused a stored transaction: freshness hypothesis violated from here on
-
-            def anomaly(key, what, observed=None):
-                # outside the freshness hypothesis every anomaly is a consequence of the known finding and reported under its key
-                if damaged:
-                    fail(DUP_KEY, "consequence of a deleted block that reused a stored transaction id: " + what, r, ix, observed=observed)
-                else:
-                    fail(key, what, r, ix, observed=observed)
-
             if st.get("panic"):
-                anomaly("c05:panic:%s:%s" % (op, st["panic"]), "%s step #%d panicked at %s" % (op, ix, st["panic"]), st["panic"])
+                fail("c05:panic:%s:%s" % (op, st["panic"]), "%s step #%d panicked at %s" % (op, ix, st["panic"]), r, ix, observed=st["panic"])
                 bump("history abandoned after a panic")
                 break   # the shadow stacks cannot be trusted after a panic: the rest of the history is not evaluated
+            if op == "delete" and ok and spans and blocks:
+                gone = {k for k, _ in st["pre"]} - {k for k, _ in st["post"]}
+                for t in spans[-1]["reused"]:
+                    if ("06" + t) in gone and any(t == x[0] for blk0 in blocks[:-1] for x in blk0["txs"]):
+                        lost.add(t)
             tip = st.get("tip_after")
             dbt = db_tip(st["post"])
             if dbt is not None and (tip is None or tip["height"] != dbt[0] or tip["id"] != dbt[1]):
-                anomaly("c05:tip:%s" % ("cache-empty" if tip is None else "cache-differs"),
-                        "after %s step #%d the cached tip %s differs from the database tip %s" % (op, ix, json.dumps(tip), dbt), tip)
-            if tip is not None and tip.get("body_ok") is False:
-                anomaly("c05:tip:cached-body-differs", "after %s step #%d the cached tip block %s (transactions, assets) does not encode to the "
-                        "block stored under its id" % (op, ix, tip["id"][:16]), tip)
+                fail("c05:tip:%s" % ("cache-empty" if tip is None else "cache-differs"),
+                     "after %s step #%d the cached tip %s differs from the database tip %s" % (op, ix, json.dumps(tip), dbt), r, ix, observed=tip)
+            elif tip is not None and tip.get("body_ok") is not True:
+                tb = next((x for x in blocks if x["id"] == tip["id"]), None)
+                if op == "apply" and ok and st["blk"]["id"] == tip["id"]:
+                    tb = st["blk"]
+                if tb is not None and lost and owner_missing(tb, st["post"]):
+                    fail(DUP_KEY, "getBlock of block %s fails after step #%d: its transaction record was removed by deleting a later block "
+                         "that reused the id" % (tip["id"][:16], ix), r, ix, observed=tip)
+                else:
+                    fail("c05:tip:cached-body-differs", "after %s step #%d the cached tip block %s (transactions, assets) does not encode to "
+                         "the block stored under its id (body_ok=%s)" % (op, ix, tip["id"][:16], tip.get("body_ok")), r, ix, observed=tip)
+            m0, m1 = marker(st["pre"]), marker(st["post"])
+            if m0 is not None and (m1 is None or m1 < m0):
+                fail("c05:marker:lowered", "%s step #%d lowered the finalized-height marker from %s to %s" % (op, ix, m0, m1), r, ix, observed=m1)
+            if st.get("flush_diff") is not None:
+                floors["deletes followed by a flush comparison"] = floors.get("deletes followed by a flush comparison", 0) + 1
             if st.get("flush_diff"):
-                anomaly("c05:flush:reads-differ-after-flush", "after %s step #%d a memtable flush (what a restart does) changes what is read at "
-                        "keys %s" % (op, ix, st["flush_diff"][:6]), st["flush_diff"][:20])
+                fail("c05:flush:reads-differ-after-flush", "after %s step #%d a memtable flush (what a restart does) changes what is read at "
+                     "keys %s" % (op, ix, st["flush_diff"][:6]), r, ix, observed=st["flush_diff"][:20])
             if not ok:
                 if st["pre"] != st["post"]:
-                    anomaly("c05:%s:failed-step-changed-db:%s" % (op, st.get("err")),
-                            "%s step #%d returned %s but changed the database" % (op, ix, st.get("err")))
-                if op == "delete" and st.get("err") == "finalized" and not st.get("finalized_guard"):
-                    fail("c05:delete:refused-above-finality", "delete step #%d refused as finalized above the finalized height" % ix, r, ix)
+                    fail("c05:%s:failed-step-changed-db:%s" % (op, st.get("err")),
+                         "%s step #%d returned %s but changed the database" % (op, ix, st.get("err")), r, ix)
+                if op == "apply":
+                    fail("c05:apply:failed:%s" % st.get("err"), "apply step #%d failed: %s" % (ix, st.get("err")), r, ix)
+                else:
+                    # a delete of the cached tip above the finalized height must succeed
+                    err = st.get("err")
+                    expected = (err == "finalized" and st.get("finalized_guard")) or (err == "genesis" and not blocks) or (
+                        err == "no-diff" and (st.get("finalized_guard") or not blocks))
+                    parent = blocks[-2] if len(blocks) >= 2 else None
+                    if expected:
+                        pass
+                    elif lost and parent is not None and owner_missing(parent, st["pre"]):
+                        fail(DUP_KEY, "delete step #%d fails (%s): the cache refill needs getBlock of the parent, whose transaction record "
+                             "was removed by deleting a later block that reused the id" % (ix, err), r, ix, observed=err)
+                    else:
+                        fail("c05:delete:failed-above-finality:%s" % err, "delete step #%d of the tip (height %s, finalized guard %s) failed: %s"
+                             % (ix, st.get("height"), st.get("finalized_guard"), err), r, ix, observed=err)
                 continue
             if op == "apply":
                 b = st["blk"]
                 h = b["height"]
-                if st.get("dup_tx"):
-                    in_domain_span = False
-                else:
-                    in_domain_span = True
+                pre_keys = {k for k, _ in st["pre"]}
+                reused = {t[0] for t in b["txs"] if ("06" + t[0]) in pre_keys}
                 denc = dict(map(tuple, st["post"])).get("33%08x" % h, "")
                 staged = []
                 for o in st["staged"]:
@@ -236,7 +281,7 @@ def evaluate(ck, recs):
                 apply_ctx.append((r, ix))
                 if not st.get("diff_enc_roundtrip", True):
                     fail("c05:diff-codec-roundtrip", "Decode(Encode(diff)) differs from the diff at step #%d" % ix, r, ix)
-                spans.append(dict(pre=st["pre"], ev=None, dfb=None, temps=set(), dup=not in_domain_span, ix=ix,
+                spans.append(dict(pre=st["pre"], ev=None, dfb=None, temps=set(), dup=bool(reused), reused=reused, ix=ix,
                                   tip=db_tip(st["pre"])))
                 blocks.append(b)
                 m = min_event_delete(st["fh"], h, keep)
@@ -271,10 +316,21 @@ def evaluate(ck, recs):
                         s2["taint"] = True
                     bump("delete below finality let through")
                 if st["save_temp"] and st.get("temp_ok") is not True:
-                    anomaly("c05:temp-block-not-retrievable", "delete step #%d with saveTemp: the removed block is not returned by "
-                            "GetTempBlocks byte-identically" % ix, st.get("temp_ids"))
-                if not damaged and not sp["dup"] and not sp.get("taint"):
-                    restore_terms.append("(%s, %s, %s, %s, [%s])" % (dump_term(it, sp["pre"]), dump_term(it, st["post"]),
+                    fail("c05:temp-block-not-retrievable", "delete step #%d with saveTemp: the removed block is not returned by "
+                         "GetTempBlocks byte-identically" % ix, r, ix, observed=st.get("temp_ids"))
+                # the known finding itself: the record of a reused transaction id, still owned by an earlier block, is gone
+                post_keys = {k for k, _ in st["post"]}
+                for t in sorted(sp["reused"]):
+                    if ("06" + t) not in post_keys and any(t == x[0] for blk0 in blocks for x in blk0["txs"]):
+                        lost.add(t)
+                        fail(DUP_KEY, "delete step #%d removed the record 06|%s that an earlier, still applied block owns (block #%d reused "
+                             "the transaction id)" % (ix, t[:16], sp["ix"]), r, ix, observed="06" + t)
+                if not sp.get("taint"):
+                    # restore oracle, with ONLY the lost records excepted
+                    exc = {"06" + t for t in lost}
+                    fpre = [kv for kv in sp["pre"] if kv[0] not in exc]
+                    fpost = [kv for kv in st["post"] if kv[0] not in exc]
+                    restore_terms.append("(%s, %s, %s, %s, [%s])" % (dump_term(it, fpre), dump_term(it, fpost),
                                                                     optN(sp["ev"]), optN(sp["dfb"]),
                                                                     "; ".join(str(x) for x in sorted(sp["temps"]))))
                     restore_ctx.append((r, ix, sp["ix"]))
@@ -283,12 +339,27 @@ def evaluate(ck, recs):
                         fail("c05:restore:db-tip", "delete step #%d: database tip %s differs from the tip before the matching apply "
                              "#%d %s" % (ix, dbt, sp["ix"], sp["tip"]), r, ix)
                     ck.nontrivial(("restore", b["id"], sp["ix"], ix))
+                    if r.get("scripted"):
+                        floors["restore checks in the scripted history"] = floors.get("restore checks in the scripted history", 0) + 1
                 else:
-                    bump("restore oracle skipped (%s)" % ("dup-tx" if (damaged or sp["dup"]) else "below finality"))
+                    bump("restore oracle skipped (below finality)")
         if r.get("final_flush_diff"):
-            key = DUP_KEY if damaged else "c05:flush:reads-differ-after-flush"
-            fail(key, "at the end of the history a memtable flush (what a restart does) changes what is read at keys %s" % r["final_flush_diff"][:6],
-                 r, -1, observed=r["final_flush_diff"][:20])
+            fail("c05:flush:reads-differ-after-flush", "at the end of the history a memtable flush (what a restart does) changes what is read "
+                 "at keys %s" % r["final_flush_diff"][:6], r, -1, observed=r["final_flush_diff"][:20])
+        if "prepare_cache_err" in r and r["steps"] and "post" in r["steps"][-1]:
+            # restart view: a fresh Chain + PrepareCache over the final database must succeed and expose the DB tip
+            want = r.get("final_last_block_db")
+            final = r["steps"][-1]["post"]
+            excused = bool(lost) and any(owner_missing(x, final) for x in blocks)
+            if r["prepare_cache_err"] is not None or (want is None and db_tip(final) is not None):
+                fail(DUP_KEY if excused else "c05:restart:prepare-cache-failed",
+                     "PrepareCache / GetLastBlockHeader on a fresh Chain over the final database failed (%s / %s); genesis height %d, "
+                     "maxBlockCache %d%s" % (r["prepare_cache_err"], r.get("final_last_block_db_err"), r["genesis_height"], r["maxcache"],
+                                            "; getBlock of a block whose transaction record was removed" if excused else ""), r, -1,
+                     observed=r["prepare_cache_err"])
+            elif want is not None and tip_key(r.get("prepare_cache_tip")) != tip_key(want):
+                fail("c05:restart:cached-tip-differs", "after PrepareCache the cached tip %s differs from the database tip %s" % (
+                    json.dumps(r.get("prepare_cache_tip")), json.dumps(want)), r, -1, observed=r.get("prepare_cache_tip"))
     ra = ck.coq_eval(IMPORTS, "apply_case", "check_apply", apply_terms, shard=40, tag="apply")
     rd = ck.coq_eval(IMPORTS, "delete_case", "check_delete", delete_terms, shard=40, tag="delete")
     rr = ck.coq_eval(IMPORTS, "restore_case", "check_restore", restore_terms, shard=40, tag="restore")
@@ -321,6 +392,10 @@ def evaluate_e(ck, recs):
     ea_terms, de_terms, re_terms, tw_terms = [], [], [], []
     ea_ctx, de_ctx, re_ctx, tw_ctx = [], [], [], []
     stats = ck.extra.setdefault("executer_step_kinds", {})
+    floors = ck.extra.setdefault("floor_counts", {})
+
+    def floor(k, n=1):
+        floors[k] = floors.get(k, 0) + n
 
     def bump(k):
         stats[k] = stats.get(k, 0) + 1
@@ -349,6 +424,7 @@ def evaluate_e(ck, recs):
         if r["k"] == "edup":
             ck.count()
             bump("dup-tx scenario")
+            floor("dup-tx scenario evaluated")
             if r.get("accepted") and (not r.get("tx_record_present") or r.get("get_b1_fresh") != "ok"):
                 fail("c05:dup-tx:earlier-block-tx-record-removed",
                      "Executer accepted block B2 repeating transaction %s of its parent B1; deleting B2 removed the record 06|txid of "
@@ -375,9 +451,16 @@ def evaluate_e(ck, recs):
             if dbt is not None and (tip is None or tip["height"] != dbt[0] or tip["id"] != dbt[1]):
                 fail("c05:executer:tip", "after %s step #%d the cached tip %s differs from the database tip %s" % (
                     op, ix, json.dumps(tip), dbt), r, ix, observed=tip)
-            if tip is not None and tip.get("body_ok") is False:
+            if tip is not None and tip.get("body_ok") is not True:
                 fail("c05:executer:tip:cached-body-differs", "after %s step #%d the cached tip block (transactions, assets) does not encode to "
                      "the block stored under its id" % (op, ix), r, ix, observed=tip)
+            m0, m1 = marker(st["pre"]), marker(st["post"])
+            if m0 is not None and (m1 is None or m1 < m0 or (op == "apply" and ok and (st["fh_post"] != m1 or st["fh_pre"] != m0))):
+                fail("c05:executer:marker", "%s step #%d: finalized-height marker %s -> %s (reported %s -> %s): the marker must never be "
+                     "lowered and must be what GetFinalizedHeight reports" % (op, ix, m0, m1, st.get("fh_pre"), st.get("fh_post")), r, ix,
+                     observed=m1)
+            if st.get("flush_diff") is not None:
+                floor("executer deletes followed by a flush comparison")
             if st.get("flush_diff"):
                 fail("c05:executer:flush:reads-differ-after-flush", "after %s step #%d a memtable flush (what a restart does) changes what is "
                      "read at keys %s" % (op, ix, st["flush_diff"][:6]), r, ix, observed=st["flush_diff"][:20])
@@ -387,6 +470,10 @@ def evaluate_e(ck, recs):
                          "%s step #%d returned %s but changed the database" % (op, ix, st.get("err")), r, ix)
                 if op == "delete" and st.get("below_finalized") and st.get("err") != "finalized":
                     fail("c05:executer:delete-below-finalized", "delete of a block at or below the finalized height answered %s" % st.get("err"), r, ix)
+                if op == "delete" and not st.get("below_finalized"):
+                    # Executer.deleteBlock of the cached tip above the finalized height must succeed
+                    fail("c05:executer:delete:failed-above-finality:%s" % st.get("err"), "deleteBlock of the tip (height %s, finalized %s) "
+                         "failed: %s" % (st.get("height"), st.get("fh_pre"), st.get("err")), r, ix, observed=st.get("err"))
                 if op == "apply":
                     fail("c05:executer:valid-block-rejected:%s" % st.get("err"), "valid block rejected at step #%d: %s" % (ix, st.get("err")), r, ix)
                 continue
@@ -438,6 +525,8 @@ def evaluate_e(ck, recs):
                 re_terms.append("(%s, %s, %s, %s, [%s])" % (dump_term(it, sp["pre"]), dump_term(it, st["post"]), optN(sp["ev"]),
                                                             optN(sp["dfb"]), "; ".join(str(x) for x in sorted(sp["temps"]))))
                 re_ctx.append((r, ix, sp["ix"]))
+                if r["idx"] == 0:
+                    floor("executer restore checks in the scripted history")
                 if sp["tip"] != db_tip(st["post"]):
                     fail("c05:executer:restore:db-tip", "delete step #%d: database tip differs from the tip before apply #%d" % (ix, sp["ix"]), r, ix)
                 ck.nontrivial(("erestore", st["id"], sp["ix"], ix))
@@ -450,6 +539,12 @@ def evaluate_e(ck, recs):
                 fail("c05:executer:restart", "after Restart (Init incl. PrepareCache) err=%s cached tip %s database tip %s" % (
                     rs.get("err"), json.dumps(rs.get("tip")), json.dumps(rs.get("db_tip"))), r, -1, observed=rs)
         tw = r.get("twin")
+        if r["idx"] == 0 and tw is None:
+            fail("c05:executer:twin:missing-in-scripted-history", "the scripted history ended with its tip at or below the finalized "
+                 "height: no reorg probe", r, -2)
+        if tw is not None and (tw.get("a") is None or tw.get("t") is None):
+            fail("c05:executer:twin:incomplete", "reorg probe stopped early: apply B / delete B / apply B' answered %s, replay on the twin %s"
+                 % (tw.get("err_a"), tw.get("err_t")), r, -2, observed=tw.get("err_a"))
         if tw is not None and tw.get("a") is not None and tw.get("t") is not None:
             ck.count()
             bump("twin")
@@ -474,6 +569,7 @@ def evaluate_e(ck, recs):
                 tw_terms.append("(%s, %s, %s, %s, [%s])" % (dump_term(it, ft), dump_term(it, fa), optN(ev), optN(dfb),
                                                             "; ".join(str(x) for x in sorted(temps))))
                 tw_ctx.append(r)
+                floor("executer twin probes evaluated")
                 if tip_key(tw["tip_a"]) != tip_key(tw["tip_t"]) or tw["votes_a"] != tw["votes_t"]:
                     fail("c05:executer:twin:tip-or-bft-store", "reorg probe: node (apply B, delete B, apply B') and twin (apply B') differ in "
                          "tip or BFT store digest", r, -2, observed={"tip_a": tw["tip_a"], "tip_t": tw["tip_t"]})
@@ -521,7 +617,7 @@ def run(ck):
     if not binp:
         return
     n = "80" if ck.tier == "quick" else "1500"
-    recs = ck.run_harness(binp, ["-n", n])
+    recs = run_harness_retry(ck, binp, ["-n", n])
     if recs is None:
         return
     corpus = os.path.join(ROOT, "corpus", "C05")
@@ -534,10 +630,23 @@ def run(ck):
     evaluate(ck, recs)
     bine = ck.go_build("c05e")
     if bine:
-        erecs = ck.run_harness(bine, ["-n", "14" if ck.tier == "quick" else "150"], out_name="ecases.jsonl")
+        erecs = run_harness_retry(ck, bine, ["-n", "14" if ck.tier == "quick" else "150"], out_name="ecases.jsonl")
         if erecs is not None:
             evaluate_e(ck, erecs)
             ck.extra["executer_histories"] = len(erecs)
+    # count floors: met by construction (the first history of each driver is scripted, the dup-tx record is always emitted),
+    # so they cannot fail by chance; they fail when a change makes deletes / probes stop happening
+    fc = ck.extra.get("floor_counts", {})
+    for name, least in (("scripted blockchain-level history", 1), ("drain histories", 1), ("restore checks in the scripted history", 3),
+                        ("deletes followed by a flush comparison", 3), ("histories with a final flush comparison", 1),
+                        ("dup-tx scenario evaluated", 1), ("executer restore checks in the scripted history", 2),
+                        ("executer deletes followed by a flush comparison", 2), ("executer twin probes evaluated", 1)):
+        ck.obligations += 1
+        if fc.get(name, 0) >= least:
+            ck.discharged += 1
+        else:
+            ck.fail_obligation("floor:" + name, "coverage floor not met: %s = %d, at least %d expected by construction" % (
+                name, fc.get(name, 0), least))
     for r in recs[:3]:
         ck.sample({"keep": r["keep"], "maxcache": r["maxcache"], "genesis_height": r["genesis_height"],
                    "steps": [[s["op"], s.get("err"), s.get("height", s.get("blk", {}).get("height"))] for s in r["steps"]]})
